@@ -141,6 +141,31 @@ def finishMapping : Except Err (List Expr) → Except Err Expr
   | .ok [e] => .ok e
   | .ok es => .ok (.group .and es)
 
+/-- The kind checks after the member loop (parser.rs:1552-1574). -/
+def seqErr (e : Expr) (misc : Option ModSym) (st : SeqSt) : Bool :=
+  let isMatch := match e with | .match _ _ => true | _ => false
+  let kinds := st.boolean.toNat + st.mapping.toNat + st.number.toNat + st.string.toNat
+  (isMatch && kinds > 1) ||
+    (misc == some .int && (st.boolean || st.mapping || st.string)) ||
+    (misc == some .str && (st.boolean || st.mapping || st.number))
+
+/-- The final shaping of a list (parser.rs:1575-1588, after the of(k, n) repair): a lone
+    un-batched member stands for itself except under `of`; under all()/of() the group is wrapped. -/
+def shapeGroup (e : Expr) (g : Expr) (gs : List Expr) (multiple : Bool) : Expr :=
+  match e with
+  | .match (.of n) _ => if gs.isEmpty then .match (.of n) g else .match (.of n) (.group .or (g :: gs))
+  | .match .all _ =>
+    if !multiple && gs.isEmpty then g
+    else if gs.isEmpty then .match .all g else .match .all (.group .or (g :: gs))
+  | _ => if !multiple && gs.isEmpty then g else .group .or (g :: gs)
+
+def shapeSeq (e : Expr) (misc : Option ModSym) (st : SeqSt) (group : List Expr) (multiple : Bool) :
+    Except Err Expr :=
+  if seqErr e misc st then .error .parseInvalidIdent else
+  match group with
+  | [] => .error .parseInvalidIdent
+  | g :: gs => .ok (wrapNot misc (shapeGroup e g gs multiple))
+
 mutual
 /-- The `for (k, v) in mapping` loop of `parse_mapping` (parser.rs:786). -/
 def parseEntries (E : RegexEngine) (ic : Bool) : List (Yaml × Yaml) → Except Err (List Expr)
@@ -197,25 +222,7 @@ def parseVal (E : RegexEngine) (ic : Bool) (e : Expr) (f : Str) (misc : Option M
     let unmatched : Expr := match e with | .match _ x => x | x => x
     match parseMembers E ic f misc unmatched s { cast := misc == some .str } with
     | .error err => .error err
-    | .ok st =>
-      let (group, multiple) := batchMembers st f
-      let isMatch := match e with | .match _ _ => true | _ => false
-      let kinds := st.boolean.toNat + st.mapping.toNat + st.number.toNat + st.string.toNat
-      if isMatch && kinds > 1 then .error .parseInvalidIdent
-      else if misc == some .int && (st.boolean || st.mapping || st.string) then .error .parseInvalidIdent
-      else if misc == some .str && (st.boolean || st.mapping || st.number) then .error .parseInvalidIdent
-      else
-        match group with
-        | [] => .error .parseInvalidIdent
-        | g :: gs =>
-          let isOf := match e with | .match (.of _) _ => true | _ => false
-          if !multiple && gs.isEmpty && !isOf then .ok (wrapNot misc g)
-          else
-            match e with
-            | .match m _ =>
-              if gs.isEmpty then .ok (wrapNot misc (.match m g))
-              else .ok (wrapNot misc (.match m (.group .or group)))
-            | _ => .ok (wrapNot misc (.group .or group))
+    | .ok st => shapeSeq e misc st (batchMembers st f).1 (batchMembers st f).2
   | .tagged => .error .parseInvalidIdent
 
 /-- The `for value in s` loop of the sequence branch (parser.rs:1135-1381). -/
